@@ -13,7 +13,7 @@ pub static DEF: PropDef = PropDef {
     title: "Data messages survive encode then decode",
     rule: "G-data tapes: any tunnel/session id, optional Ns/Nr, both priorities, payload of 1..64 octets usually and up to the 65 535-octet total occasionally (70 000 without a Length field), \
 Length absent or equal to the true total size, Offset Size absent or n <= |data|-1 (including n = 0 with a 1-octet payload and n = |data|-1). Oracle: Message::write -> \
-try_read_validate(Yes,Yes,Yes) = Ok(d[offset := None, data := data[n..]]) with the reader empty afterwards. Non-trivial = at least one of L/S/O/P set; distinct by hash of the encoding.",
+try_read_validate(Yes,Yes,Yes) = Ok(d[offset := None, data := data[n..]]) with the reader empty afterwards. Part long-lived-thread: payloads of 16 .. 40 MiB through the same oracle, then the same encode repeated on one fresh thread (in one case in four until more than 2^32 octets have passed through the encoder on that thread): identical octets every time, no panic. Non-trivial = at least one of L/S/O/P set; distinct by hash of the encoding.",
     assumptions: &[],
     parts,
     run_tape,
@@ -28,7 +28,89 @@ fn parts(t: Tier) -> Vec<Part> {
         Tier::Quick => 1_200_000,
         Tier::Thorough => 16_000_000,
     };
-    vec![tape("data", a, 300)]
+    // "long-lived-thread": payloads of 16 .. 40 MiB, encoded again and again on one fresh thread - in one case in four until
+    // more than 2^32 octets have gone through the encoder on that thread (a per-thread or per-writer octet counter narrower than
+    // usize, a size kept in single-precision floating point)
+    let b = match t {
+        Tier::Quick => 16,
+        Tier::Thorough => 128,
+    };
+    vec![tape("data", a, 300), tape("long-lived-thread", b, 64)]
+}
+
+fn check_long_lived(t: &mut Tape, cx: &mut Cx) -> Res {
+    let long = t.below(4) == 0;
+    let n = (16 << 20) + t.below(24 << 20) + t.below(17);
+    let fill = t.byte();
+    let mut data = vec![fill; n];
+    for i in 0..64.min(n) {
+        data[i] = t.byte();
+        data[n - 1 - i] = t.byte();
+    }
+    let ns_nr = if t.chance(50) { Some((t.b_u16(), t.b_u16())) } else { None };
+    let offset = match t.below(3) {
+        0 => None,
+        1 => Some(0),
+        _ => Some(t.below(2000) as u16),
+    };
+    let m = SMsg::Data { prio: t.chance(50), length: None, tunnel: t.b_u16(), session: t.b_u16(), ns_nr, offset, data };
+    // the full round-trip oracle once ...
+    check(&m, cx)?;
+    cx.class("payload of 16 MiB and more");
+    // ... then the same encode repeated on one fresh thread: every result identical, no panic
+    let rounds = if long { (1usize << 32) / n + 3 } else { 3 };
+    let cm = to_crate_msg(&m);
+    let exp = encode_message(&m);
+    let mut mexp = m.clone();
+    if let SMsg::Data { offset: o2, data: d2, .. } = &mut mexp {
+        let n = o2.unwrap_or(0) as usize;
+        *d2 = d2[n..].to_vec();
+        *o2 = None;
+    }
+    let cexp = to_crate_msg(&mexp);
+    cx.stage(STAGE_UNATTRIBUTED); // running out of memory here is not the codec's fault
+    let r = std::thread::scope(|sc| {
+        let h = std::thread::Builder::new().spawn_scoped(sc, || {
+            for i in 0..rounds {
+                match guard(|| {
+                    let mut w = VecWriter::new();
+                    cm.write(&mut w);
+                    w.data
+                }) {
+                    Caught::Ok(e) if e == exp => {
+                        // and decoded again (zero-copy): the same value every time
+                        let ok = guard(|| {
+                            let mut r = SliceReader::from(&e[..]);
+                            let d: Result<Message<&[u8]>, _> = Message::try_read_validate(&mut r, copts(STRICT));
+                            matches!(&d, Ok(d) if *d == cexp) && r.len() == 0
+                        });
+                        if !matches!(ok, Caught::Ok(true)) {
+                            return Some(format!("decode #{} of the same data message on one thread did not return the message", i + 1));
+                        }
+                    }
+                    Caught::Ok(_) => return Some(format!("encode #{} of the same data message on one thread produced different octets", i + 1)),
+                    Caught::Panic(p) => return Some(format!("encode #{} of the same data message on one thread panicked: {}", i + 1, p.short())),
+                    Caught::Monitor(_) => return Some("unexpected panic payload".to_string()),
+                }
+            }
+            None
+        });
+        match h {
+            Ok(h) => h.join().map_err(|_| ()),
+            Err(_) => Ok(None), // no thread to be had: nothing learnt
+        }
+    });
+    cx.stage(STAGE_SETUP);
+    match r {
+        Ok(None) => {}
+        Ok(Some(why)) => return fail(why, json!({"message": format!("{:?}", short(&m)), "octets_per_encode": n, "encodes": rounds})),
+        Err(_) => return fail("the encoding thread panicked", json!({"message": format!("{:?}", short(&m))})),
+    }
+    cx.evals_n(rounds as u64);
+    if long {
+        cx.class("more than 2^32 octets encoded on one thread");
+    }
+    Ok(())
 }
 
 const COMBOS: [&str; 16] = [
@@ -128,8 +210,11 @@ pub fn short(m: &SMsg) -> SMsg {
     }
 }
 
-fn run_tape(_part: &str, tape: &[u8], cx: &mut Cx) -> Res {
+fn run_tape(part: &str, tape: &[u8], cx: &mut Cx) -> Res {
     let mut t = Tape::new(tape);
+    if part == "long-lived-thread" {
+        return check_long_lived(&mut t, cx);
+    }
     crate::props::history::prior_ops(&mut t, cx, true);
     check(&gen_data(&mut t), cx)
 }
